@@ -1,5 +1,6 @@
 import Ymq.Props.C03
 import Ymq.Props.C03Qs64
+import Ymq.Props.C03Squfof
 #print axioms Ymq.C03.factor_total
 #print axioms Ymq.C03.factorImpl_total
 #print axioms Ymq.C03.factor_total_of_input
@@ -14,3 +15,14 @@ import Ymq.Props.C03Qs64
 #print axioms Ymq.C03Qs64.qs64_no_panic
 #print axioms Ymq.C03Qs64.qs64_square_nk_counterexample
 #print axioms Ymq.C03Qs64.usesQs64_of_model
+#print axioms Ymq.C03Squfof.isqrt_total
+#print axioms Ymq.C03Squfof.squfof_seed_irrelevant
+#print axioms Ymq.C03Squfof.squfof_sound
+#print axioms Ymq.C03Squfof.squfof_no_panic
+#print axioms Ymq.C03Squfof.attempt_no_panic
+#print axioms Ymq.C03Squfof.attempt_skips_square
+#print axioms Ymq.C03Squfof.squfof_exit
+#print axioms Ymq.C03Squfof.squfof_proper
+#print axioms Ymq.C03Squfof.squfof_trivial_split_small_primes
+#print axioms Ymq.C03Squfof.squfof_uses_exit
+#print axioms Ymq.C03Squfof.sqOracle_uses_exit
